@@ -33,6 +33,7 @@ def run_worker(spec, env_extra=None):
     env = dict(os.environ)
     env.update(env_extra or {})
     env["NUMBA_CACHE_DIR"] = os.path.join(core.VERIF, ".numba_cache")
+    env["PYTHONPATH"] = core.REPO + os.pathsep + env.get("PYTHONPATH", "")      # the worker fits the tree under test
     p = subprocess.run([sys.executable, WORKER, json.dumps(spec)], capture_output=True, text=True, env=env, cwd=core.VERIF, timeout=1500)
     for line in p.stdout.splitlines():
         if line.startswith("RESULT "):
